@@ -33,3 +33,47 @@ RSA_SIGS = ["RSAwithSHA1", "RSAwithSHA256", "RSAwithSHA384", "RSAwithSHA512"]
 def raw(n, seed=0):
     r = random.Random(seed * 7919 + n)
     return "!binary:" + b64(r.randrange(256) for _ in range(n)) if n else "!empty"
+
+
+def to_yaml(obj, indent=0, key_order=None, comment=None):
+    """A small block-style YAML emitter; every scalar string is double-quoted (YAML 1.1 would otherwise turn
+    y/n/yes into booleans and long dotted numbers into floats)."""
+    import json as _j
+    sp = "  " * indent
+    out = []
+    if comment and indent == 0:
+        out.append("# " + comment)
+    if isinstance(obj, dict):
+        keys = list(obj)
+        if key_order == "reverse":
+            keys = keys[::-1]
+        for k in keys:
+            v = obj[k]
+            ks = _j.dumps(k, ensure_ascii=False) if (k.startswith(".") or " " in k) else k
+            if isinstance(v, (dict, list)) and v:
+                out.append("%s%s:" % (sp, ks))
+                out.append(to_yaml(v, indent + 1, key_order))
+            else:
+                out.append("%s%s: %s" % (sp, ks, _scalar(v)))
+        return "\n".join(out)
+    if isinstance(obj, list):
+        for it in obj:
+            if isinstance(it, (dict, list)) and it:
+                body = to_yaml(it, indent + 1, key_order).split("\n")
+                out.append("%s- %s" % (sp, body[0].lstrip()))
+                out += body[1:]
+            else:
+                out.append("%s- %s" % (sp, _scalar(it)))
+        return "\n".join(out)
+    return sp + _scalar(obj)
+
+
+def _scalar(v):
+    import json as _j
+    if v is True: return "true"
+    if v is False: return "false"
+    if v is None: return "null"
+    if isinstance(v, (int, float)): return str(v)
+    if isinstance(v, dict): return "{}"
+    if isinstance(v, list): return "[]"
+    return _j.dumps(v, ensure_ascii=False)
